@@ -554,6 +554,9 @@ func constantStmts() []*Stmt {
 		&Stmt{K: StSend, Mon: X(3), Src: VSource{Src: SrcOv(Acc("a"), MonBig(Asset("X"), pow(64, 0)))}, Dst: DstAcc(Acc("c"))},
 		&Stmt{K: StSetTxMeta, Key: "m", Val: MonBig(Asset("X"), pow(64, 0))},
 		&Stmt{K: StSetTxMeta, Key: "m0", Val: X(0)},
+		// an overdraft bound and a literal of the same asset that agree in their low 64 bits
+		&Stmt{K: StSetTxMeta, Key: "m10", Val: MonBig(Asset("X"), pow(64, 10))},
+		&Stmt{K: StSend, Mon: X(50), Src: VSource{Src: SrcOv(Acc("a"), X(10))}, Dst: DstAcc(Acc("c"))},
 	)
 	return out
 }
